@@ -105,6 +105,36 @@ pub fn pool(tier: Tier) -> Vec<V> {
             p.push(V::dict(&[("a", c.clone())]));
         }
     }
+    // differences far from the start: long strings sharing a prefix, the last of six elements, a
+    // middle key of five, a leaf four levels down; case / blank / NUL / normalisation neighbours
+    for (x, y) in [("aaaaaaaaaaaaaaaaab", "aaaaaaaaaaaaaaaaac"), ("aaaaaaaaa", "aaaaaaaaab"), ("Straße", "Strasse"), ("e\u{301}", "\u{e9}"), ("abc", "ABC"), ("abc", "abc "), ("abc", "abc\u{0}"), ("x".repeat(40).as_str(), ("x".repeat(39) + "y").as_str())] {
+        p.push(V::str(x));
+        p.push(V::str(y));
+        p.push(V::Uri(x.into()));
+        p.push(V::Ref("r".into(), Some(y.into())));
+    }
+    let six = |last: f64| V::List((0..5).map(|i| V::num(i as f64)).chain(std::iter::once(V::num(last))).collect());
+    p.push(six(5.0));
+    p.push(six(6.0));
+    p.push(V::List((0..5).map(|i| V::num(i as f64)).collect()));
+    let five = |mid: &str| V::dict(&[("a", V::num(1.0)), ("b", V::num(2.0)), ("c", V::str(mid)), ("d", V::num(4.0)), ("e", V::num(5.0))]);
+    p.push(five("x"));
+    p.push(five("y"));
+    let deep = |leaf: V| V::List(vec![V::dict(&[("a", V::List(vec![V::dict(&[("b", leaf)])]))])]);
+    p.push(deep(V::num(1.0)));
+    p.push(deep(V::num(2.0)));
+    p.push(deep(V::numu(1.0, "m")));
+    p.push(V::Coord(91.0, 181.0));
+    p.push(V::Coord(91.0, -181.0));
+    p.push(V::Coord(-91.0, 181.0));
+    p.push(V::Time(13, 0, 0, 0));
+    p.push(V::Time(13, 0, 0, 1));
+    p.push(V::Time(23, 59, 59, 999_999_999));
+    p.push(V::Date(1969, 12, 31));
+    p.push(V::Date(1, 1, 1));
+    p.push(V::Date(0, 12, 31));
+    p.push(V::XStr("Bin".into(), "a".into()));
+    p.push(V::XStr("bin".into(), "a".into()));
     // lists that are prefixes of each other
     p.push(V::List(vec![]));
     p.push(V::List(vec![V::num(1.0), V::num(2.0)]));
@@ -139,6 +169,13 @@ pub fn pool(tier: Tier) -> Vec<V> {
     p.push(grid("3.0", None, vec![("a", None)], vec![vec![("a", V::numu(1.0, "s"))]]));
     p.push(grid("3.0", None, vec![("a", None)], vec![vec![("a", V::num(0.0))]]));
     p.push(grid("3.0", None, vec![("a", None)], vec![vec![("a", V::num(-0.0))]]));
+    // rows: same rows in another order, one row twice, four rows differing in the last one
+    let r3 = vec![("a", V::num(3.0))];
+    p.push(grid("3.0", None, vec![("a", None)], vec![r1.clone(), r2.clone(), r3.clone(), r1.clone()]));
+    p.push(grid("3.0", None, vec![("a", None)], vec![r1.clone(), r3.clone(), r2.clone(), r1.clone()]));
+    p.push(grid("3.0", None, vec![("a", None)], vec![r1.clone(), r2.clone(), r3.clone(), r2.clone()]));
+    p.push(grid("3.0", None, vec![("a", None)], vec![r1.clone(), r1.clone()]));
+    p.push(grid("3.0", None, vec![("b", None), ("a", None)], vec![r1.clone()]));
     p
 }
 
@@ -509,6 +546,45 @@ fn wide_laws(tier: Tier, run: &mut Run) {
     }
 }
 
+/// Dicts that differ in one tag only, for every pair of tag names the library's source mentions
+/// (a shortcut in == / hash / cmp keyed on particular tag names shows here): the pair laws on each.
+fn named_tag_laws(local_run: &mut Run) {
+    let names = u::harvested_names();
+    local_run.note("harvested_names", json!(names.len()));
+    let vals = [V::Sym("x".into()), V::str("x"), V::Ref("x".into(), None), V::Marker, V::num(1.0)];
+    let n = names.len();
+    let l = par_for(n * n, |k, local| {
+        let (i, j) = (k / n, k % n);
+        if i > j {
+            return;
+        }
+        for (vi, same_kind) in (0..vals.len()).flat_map(|vi| [(vi, true), (vi, false)]) {
+            let v = &vals[vi];
+            let mk = |other: V| {
+                let mut t = vec![(names[i].as_str(), v.clone()), ("zq9", other)];
+                if i != j {
+                    t.push((names[j].as_str(), if same_kind { v.clone() } else { vals[(vi + 1) % vals.len()].clone() }));
+                }
+                to_lib(&V::dict(&t))
+            };
+            let (a, b) = (mk(V::num(1.0)), mk(V::num(2.0)));
+            local.evals += 1;
+            let e = a == b;
+            let o = a.cmp(&b);
+            let bad = e || o == Ordering::Equal || a.partial_cmp(&b).map_or(false, |p| p != o) || (h1(&a) == h1(&b) && h2(&a) == h2(&b) && e) || (b == a) != e || o != b.cmp(&a).reverse() || !(a == a.clone()) || h1(&a) != h1(&a.clone());
+            if bad {
+                local.fail(
+                    &format!("named-tags:dicts-differing-in-one-tag-compare-equal:{}", v.kind_name()),
+                    json!({"type": "Value", "law": "named-tags", "names": [names[i], names[j]], "value_kind": vi}),
+                    format!("dicts {a:?} and {b:?} differ in tag zq9: == {e}, cmp {o:?}, partial {:?}", a.partial_cmp(&b)),
+                );
+            }
+        }
+        local.count("named-tag-pairs");
+    });
+    local_run.absorb(l);
+}
+
 const TYPES: &[&str] = &["Value", "Number", "Coord", "Ref", "Str", "Uri", "Symbol", "XStr", "Bool", "List", "Dict", "Grid", "Column", "Date", "Time", "DateTime"];
 
 /// Unit: Eq + Hash + PartialOrd over all database units
@@ -544,7 +620,7 @@ fn unit_laws(local: &mut Local) {
 
 pub fn run(tier: Tier) -> i32 {
     let mut run = Run::new("C12", tier, "exploration");
-    run.rule = "near-collision pool Π (±0 plain/with unit/in Coord/nested, same magnitude under different or no unit, Refs differing only in dis, same payload under different kinds, dict/list/grid neighbours, equal instants in different zones); every law on all |Π|² ordered pairs and all |Π|³ triples, for Value and each typed value; plus the wide set W (Π, the scalar alphabet Σ — every 5th value in the quick tier —, 300/1500 containers of U, the ver variants; no NaN): every pair law on all |W|² ordered pairs of Values and transitivity of == and of cmp on all |W|³ triples decided through ranks and classes (equivalent, O(|W|²)); HashSet/BTreeSet/sort+dedup of W have one element per ==-class; non-trivial = ordered pair of two different pool entries (distinct by type + both values)".into();
+    run.rule = "near-collision pool Π (±0 plain/with unit/in Coord/nested, same magnitude under different or no unit, Refs differing only in dis, same payload under different kinds, dict/list/grid neighbours, equal instants in different zones); every law on all |Π|² ordered pairs and all |Π|³ triples, for Value and each typed value; plus the wide set W (Π, the scalar alphabet Σ — every 5th value in the quick tier —, 300/1500 containers of U, the ver variants; no NaN): every pair law on all |W|² ordered pairs of Values and transitivity of == and of cmp on all |W|³ triples decided through ranks and classes (equivalent, O(|W|²)); HashSet/BTreeSet/sort+dedup of W have one element per ==-class; for every pair of identifier-like string literals of the library's own source (harvested from /repo/src at run time) two dicts carrying those tags and differing in a third tag only must be unequal under ==, cmp, partial_cmp; non-trivial = ordered pair of two different pool entries (distinct by type + both values)".into();
     run.assume("no NaN anywhere (excluded by the statement)");
     run.assume("SipHash (DefaultHasher) and FNV-1a stand for 'any Hasher'");
     crate::engine::quiet_panics();
@@ -562,6 +638,8 @@ pub fn run(tier: Tier) -> i32 {
     });
     run.absorb(l);
     wide_laws(tier, &mut run);
+    named_tag_laws(&mut run);
+    run.require(run.counter("named-tag-pairs") > 1000, "too few names harvested from the source");
     run.require(run.counter("wide-values") > 500, "wide set too small");
     for t in ["Value", "Number", "Coord", "Ref", "Dict", "Grid", "List"] {
         run.require(run.counter(&format!("equal-but-not-identical:{t}")) > 0, &format!("no equal-but-not-identical pair of type {t}"));
@@ -581,6 +659,13 @@ pub fn replay(case: &J) -> Verdict {
     let mut local = Local::new();
     if ty == "Unit" {
         unit_laws(&mut local);
+    } else if law == "named-tags" {
+        let mut run = Run::new("C12", Tier::Quick, "exploration");
+        named_tag_laws(&mut run);
+        return match run.stats.fails.values().find(|f| f.case["names"] == case["names"] && f.case["value_kind"] == case["value_kind"]) {
+            Some(f) => Err((f.sig.clone(), f.detail.clone())),
+            None => Ok(()),
+        };
     } else if case["wide"] == true {
         // a consequence on the wide set: rebuild the set of the recording tier and look the same
         // consequence up again
